@@ -99,7 +99,7 @@ where
             w[0] = REFUSED[pc - 1];
             n = 1;
         }
-        let npre = n;
+        let _npre = n;
         w[n] = w1;
         n += 1;
         if words == 2 {
